@@ -224,6 +224,18 @@ def check_case(case):
     r100 = run(dict(spec, method="rotdpp", azimuths=azs, percentile=100.0)).amplitude[0]
     if not (pclose(r0, lo, rtol=1e-9) and pclose(r100, hi, rtol=1e-9)):
         raise Violation(f"RotD0/RotD100 are not the minimum/maximum over the azimuths {azs} (rel diff {rel_err(r0, lo):.3g} / {rel_err(r100, hi):.3g})")
+    # linearly polarised horizontals and an azimuth set that contains the direction perpendicular to the motion
+    # (the rotated component is then ~1e-16 of the motion, not exactly zero): RotD0 / RotD100 stay finite and are min / max
+    pol_comps = (pns, pew, vt)
+    azs2 = sorted({round(v % 180.0, 9) for v in list(azs) + [theta - dp + 90.0, theta + 90.0]})
+    the2 = run(dict(spec, method="total_horizontal_energy"), dfn=dp, comps=pol_comps).amplitude[0]
+    singles2 = np.array([run(dict(spec, azimuth=a_i), dfn=dp, comps=pol_comps).amplitude[0] for a_i in azs2])
+    q0 = run(dict(spec, method="rotdpp", azimuths=azs2, percentile=0.0), dfn=dp, comps=pol_comps).amplitude[0]
+    q100 = run(dict(spec, method="rotdpp", azimuths=azs2, percentile=100.0), dfn=dp, comps=pol_comps).amplitude[0]
+    tol2 = 1e-9 * np.abs(singles2).max(axis=0) + 1e-10 * the2
+    if not (np.all(np.abs(q0 - singles2.min(axis=0)) <= tol2) and np.all(np.abs(q100 - singles2.max(axis=0)) <= tol2)):
+        raise Violation(f"polarised motion (azimuth {theta}, sensor at {dp}): RotD0/RotD100 over the azimuths {azs2} are not the minimum/maximum of the single-azimuth curves")
+    labels.append("rotdpp-on-polarised-motion")
     # rotation-invariant combinations
     im = case["inv_method"]
     ispec = dict(spec, method=im)
